@@ -61,7 +61,7 @@ TABLE['C04'] = {
 }
 
 TABLE['C11'] = {
-    'modules': ['contracts.glob', 'contracts.regencheck'],
+    'modules': ['contracts.glob', 'contracts.regencheck', 'contracts.regen'],
     'level': 'proof',
     'assumptions': [
         'path components and per-component matchers are abstract (uninterpreted sorts; M(matcher, component)); that the matcher '
@@ -108,7 +108,7 @@ TABLE['C03'] = {
 }
 
 TABLE['C05'] = {
-    'modules': ['contracts.naming'],
+    'modules': ['contracts.naming', 'contracts.paths'],
     'level': 'proof',
     'assumptions': [
         're.sub on the family F3 "(^|/)X1..Xk(?=/|$)" with template "\\1LIT" (classes not matching "/") is the per-component transducer of pyvc/models.py f3_fold (cross-checked against CPython re)',
@@ -154,7 +154,7 @@ TABLE['C20'] = {
 }
 
 TABLE['C12'] = {
-    'modules': ['contracts.paths'],
+    'modules': ['contracts.paths', 'contracts.naming'],
     'level': 'other',
     'explanation': 'proof of the three kernels whose logic is bfg9000\'s own (equality/hash agreement, hash input, JSON shape incl. the directory flag) + bounded runtime contracts of every algebraic law of the property on the real PosixPath/WindowsPath classes (all strings of up to 4 components over {"", ".", "..", "a", "b.c", "a b", "..x"}, both separators); the laws themselves are laws of posixpath/ntpath/os.path, for which no deductive model exists here (a model would restate the library), so they are NOT proved',
     'assumptions': ['posixpath/ntpath/os.path behave as in the running CPython (the bounded run uses the real library)',
@@ -252,7 +252,7 @@ TABLE['C13'] = {
 
 
 TABLE['C18'] = {
-    'modules': ['contracts.distarchive', 'contracts.regencheck'],
+    'modules': ['contracts.distarchive', 'contracts.regencheck', 'contracts.regen'],
     'level': 'other',
     'explanation': '(proof: find_from_filter under contract -- whether a find_files() result comes from the find cache or from a fresh search, cached or not, every found path becomes an object of the requested type and every extra path is registered, all with the dist flag of the caller.) Beyond that kernel: a universal statement over all builtins plus the behaviour of the external archive tool: no per-function contract carries it, nothing else is proved. The rest of the check is a bounded runtime contract on the real pipeline: one generated project that creates file objects through find_files (with extra=), header_directory (with a pattern), static_library, executable, header_file, man_page, generic_file, copy_file, build_step and command inputs, a submodule with its own options file, extra_dist and a dist=False source is configured by the tree under test; the dist-gzip, dist-bzip2 and dist-zip targets are run by GNU make with the real doppel; the archive members must be exactly the files the description reads, and the unpacked archive must configure and build the distributed targets.',
     'assumptions': ['the installed doppel 0.5.0 is the archive tool a user runs'],
